@@ -111,6 +111,15 @@ EQUIVALENT = [
      "        return self.erecord.report(intr)",
      "            self.log('** count stopped by the user; this round is incomplete **')\n"
      "            self.intr_logged = True\n        return self.erecord.report(intr)"),
+    ('eq-json-indent', 'C19', 'droop/record.py',
+     "return json_.dumps(self, cls=ValueEncoder, sort_keys=True, indent=2)",
+     "return json_.dumps(self, cls=ValueEncoder, sort_keys=True, indent=4)"),
+    ('eq-intr-flag-renamed', 'C19', 'droop/election.py', "intr_logged", "markerLogged"),
+    ('eq-count-via-helper', 'C19', 'droop/election.py',
+     "        ##\n        self.rule.count()   ### count the election ###\n        ##\n",
+     "        self._runRule()\n"),
+    ('eq-dump-extra-column', 'C20', 'droop/record.py',
+     "            r = [str(item) for item in r]\n", "            r = [str(item) for item in r] + ['.']\n"),
     ('eq-profile-error-wording', 'C16', 'droop/profile.py',
      "raise ElectionProfileError('bad blt file: unexpected end-of-file')",
      "raise ElectionProfileError('bad blt file: premature end of file')"),
@@ -135,8 +144,15 @@ def apply(d, fname, old, new):
         s = f.read()
     if old not in s:
         return False
+    if old == 'intr_logged':
+        s = s.replace(old, new)         # a rename: every occurrence
+    else:
+        s = s.replace(old, new, 1)
+    if new == "        self._runRule()\n":
+        s = s.replace("    def postCheck(self):", "    def _runRule(self):\n        \"count through a helper\"\n"
+                      "        self.rule.count()\n\n    def postCheck(self):", 1)
     with open(p, 'w', encoding='utf-8') as f:
-        f.write(s.replace(old, new, 1))
+        f.write(s)
     return True
 
 
